@@ -5,8 +5,10 @@ on the unchanged tree with an ASCII source: the reported span is exactly the mar
 keys: cls  lexical | syntactic | resolution | type | sql
       t    the source with the marker
       target   compile target (sql class: some errors are dialect specific)
-      known    id of the defect class the template exists to exhibit (interp-rebase, std-span)
-      check_tok  False: only bounds/location/display are checked, not the token (span is not a token)"""
+      known    id of the defect class the template exists to exhibit (interp-rebase)
+      check_tok  False: only bounds/location/display are checked, not the token (span is not a token)
+      nospan   True: on the calibrated tree the (first) error carries no span at all (the marker shows where the
+               offending text is); should it carry one, every clause including the token is checked"""
 
 
 def parse_template(d):
@@ -66,11 +68,15 @@ TEMPLATES = [
     {"cls": "resolution", "t": "from t | sort a «desc»"},
     {"cls": "resolution", "t": "from t | derive x = «t.a.b»"},
     {"cls": "resolution", "t": "from t\nselect {y = a + 1}\nfilter «zz» > y"},
-    # an error whose span lies in the standard library (known): no file of the tree is named
-    {"cls": "resolution", "t": "from t | take «1..2..3»", "known": "std-span", "check_tok": False},
-    {"cls": "resolution", "t": "from t | take «-1»", "known": "std-span", "check_tok": False},
-    {"cls": "resolution", "t": "from t | sort «-name»", "known": "std-span", "check_tok": False},
-    {"cls": "type", "t": "let f = func x<int> -> x\nfrom t | derive z = f «\"a\"»", "known": "std-span", "check_tok": False},
+    # errors raised inside the body of a std function: reported at the call in the user's source since 7cb9d46
+    # (before: a span of std.prql, source id 0, naming no file of the tree -- finding C13-N2, fixed)
+    {"cls": "resolution", "t": "from t | «take 1..2..3»"},
+    {"cls": "type", "t": "let f = func x<int> -> x\nfrom t | «derive z = f \"a\"»"},
+    # raised outside fold_function with a span of std.prql: `composed` removes the span (no location, no excerpt)
+    {"cls": "resolution", "t": "from t | take «-1»", "nospan": True},
+    {"cls": "resolution", "t": "from t | sort «-name»", "nospan": True},
+    # new error sites of the repaired tree (7911778, a131b2a, 287b286): they point at the offending name
+    {"cls": "resolution", "t": "let tab = (from t | select {a} | join u (==a))\nfrom tab | filter «id» > 1"},
     # ---------------------------------------------------------------- type
     {"cls": "type", "t": "from t | take «a»"},
     {"cls": "type", "t": "from t | take «\"x\"»"},
@@ -86,6 +92,17 @@ TEMPLATES = [
     {"cls": "type", "t": "from t | aggregate {«sum»}"},
     {"cls": "type", "t": "from t | «take 1..(2+1)»"},
     {"cls": "type", "t": "from t | filter (a | in «{1, 2}»)"},
+    {"cls": "type", "t": "from t | select {a} | derive {x = «date»}"},
+    {"cls": "type", "t": "let r = (from u)\nfrom t | derive {x = «r»}"},
+    {"cls": "type", "t": "«from [{1, 2}]»"},
+    {"cls": "type", "t": "«from [{a = 1, 2}]»"},
+    {"cls": "type", "t": "from [{a = 1, b = «x»}]"},
+    {"cls": "type", "t": "from [{a = 1, b = 2}, {a = 3, b = «c»}]"},
+    {"cls": "type", "t": "from t | «select {a}» | append (from u | select {a, b})"},
+    # new error sites that carry no span at all (7b31f75, f0c772e): only the reason can be checked
+    {"cls": "type", "t": "from t | window «rows:1..0» (derive {x1 = count a})", "nospan": True},
+    {"cls": "type", "t": "from t | window «range:3..1» (derive {x1 = count a})", "nospan": True},
+    {"cls": "type", "t": "from t | «remove (from u | select {a, b})»", "nospan": True},
     # ---------------------------------------------------------------- SQL generation
     {"cls": "sql", "t": "from t | derive {d = (date.to_text «\"%Y\"» d0)}"},
     {"cls": "sql", "t": "from t | derive {d = «(date.to_text a b)»}"},
